@@ -183,7 +183,7 @@ func runPlay(rec *PlayRec) {
 	}()
 	select {
 	case <-done:
-	case <-time.After(10 * time.Second):
+	case <-time.After(20 * time.Second):
 		rec.Timeout = true
 	}
 	lg.mu.Lock()
@@ -534,6 +534,7 @@ func cmdGen(args []string) {
 	seed := fs.Int64("seed", 1, "seed")
 	out := fs.String("out", "", "output NDJSON")
 	par := fs.Int("par", 4, "plays executed concurrently (only a lower bound on instants is ever judged)")
+	long := fs.Int("long", 0, "extra plays with one pause of more than five seconds")
 	fs.Parse(args)
 	g := &gen{r: rand.New(rand.NewSource(*seed))}
 	recs := make([]*PlayRec, *n)
@@ -541,12 +542,44 @@ func cmdGen(args []string) {
 		recs[i] = &PlayRec{ID: i}
 		g.file(recs[i])
 	}
-	runAll(recs, *par)
+	for i := 0; i < *long; i++ { // plays with one long general pause (seconds): what comes after it must not be early either
+		rec := &PlayRec{ID: *n + i}
+		g.longPause(rec)
+		recs = append(recs, rec)
+	}
+	runAll(recs, *par+*long)
 	w := hx.Create(*out)
 	for _, r := range recs {
 		w.Put(r)
 	}
 	w.Close()
+}
+
+// longPause: two tracks, a few messages, then nothing for 5.1 .. 6.5 s, then a few more.
+func (g *gen) longPause(rec *PlayRec) {
+	r := g.r
+	s := smf.NewSMF1()
+	s.TimeFormat = smf.MetricTicks(96) // 120 BPM by default: one tick = 5208.3 us
+	gap := uint32(980 + r.Intn(270))
+	for t := 0; t < 2; t++ {
+		var tr smf.Track
+		tr.Add(uint32(t), midi.NoteOn(uint8(t), uint8(60+t), 100))
+		tr.Add(2, midi.NoteOff(uint8(t), uint8(60+t)))
+		tr.Add(gap, midi.NoteOn(uint8(t), uint8(70+t), 90))
+		tr.Add(3, midi.ControlChange(uint8(t), 7, uint8(r.Intn(128))))
+		tr.Close(0)
+		s.Add(tr)
+	}
+	var buf bytes.Buffer
+	if _, err := s.WriteTo(&buf); err != nil {
+		hx.Die("building the long-pause file failed", err)
+	}
+	rec.File = append(hx.B{}, buf.Bytes()...)
+	rec.Sel = []int{}
+	rec.Mode = "multi"
+	rec.Ports = []PortKV{{0, 10}, {1, 11}}
+	rec.Prior = []PortKV{}
+	rec.Feat = []string{"long_pause", "ports_own", "sel_all"}
 }
 
 func cmdRerun(args []string) {
